@@ -1,4 +1,7 @@
 import CG.Proofs.ScriptNum
+import CG.Proofs.Shift
+import CG.Proofs.InterpSpec
+import CG.Proofs.InterpFlow
 import CG.Model.Interp
 import CG.Spec.ScriptSem
 import CG.Generated.Tables
@@ -10,6 +13,8 @@ Property theorems only.  Model: `CG.Model.Interp` / `ScriptNum` / `Shift`; refer
 -/
 namespace CG.Props.C01
 open CG CG.Model.ScriptNum CG.Model.Interp
+open CG.Proofs.InterpSpec (specLib)
+open CG.Proofs.InterpFlow (Prog Parses big FlowSem runFrom cont andThen endPos)
 
 /-- the opcode constants of the current tree (regenerated from `src/script/op_codes.rs` on every
     run, in the fixed name order of `harness/src/c01.rs::OP_NAMES`) are the BSV byte assignments
@@ -76,5 +81,328 @@ example : encodeBig 128 = [0x80, 0x00] := by
   simp [encodeBig, magBytes, natToLE]
 example : encodeBig (-255) = [0xff, 0x80] := by
   simp [encodeBig, magBytes, natToLE]
+
+/-! ## 1. The byte-level number codec is the closed-form codec -/
+
+/-- `decode_bigint` reads the numeric value: little-endian magnitude, sign in the top bit of the
+    last byte (all lengths) -/
+theorem C01_value_eq_spec (s : Bytes) : decodeBig s = Spec.ScriptSem.value s :=
+  CG.Proofs.ScriptNum.decodeBig_eq_value s
+
+/-- `encode_bigint` is the closed-form minimal encoding (all integers) -/
+theorem C01_encode_eq_spec (z : Int) : encodeBig z = Spec.ScriptSem.encodeMin z :=
+  CG.Proofs.ScriptNum.encodeBig_eq_encodeMin z
+
+/-- every value pushed through `encode_bigint` (arithmetic, comparison, boolean, BIN2NUM results)
+    is minimally encoded -/
+theorem C01_results_minimal (z : Int) : Minimal (encodeBig z) :=
+  CG.Proofs.ScriptNum.encodeBig_minimal z
+
+/-- two minimal encodings of the same value are the same byte string -/
+theorem C01_minimal_unique (s t : Bytes) (hs : Minimal s) (ht : Minimal t)
+    (h : decodeBig s = decodeBig t) : s = t :=
+  CG.Proofs.ScriptNum.minimal_unique s t hs ht h
+
+/-- re-encoding the value of a minimal string gives it back -/
+theorem C01_encode_decode_minimal (s : Bytes) (h : Minimal s) : encodeBig (decodeBig s) = s :=
+  CG.Proofs.ScriptNum.encode_decode_of_minimal s h
+
+/-- BIN2NUM (`encode_bigint ∘ decode_bigint`) yields THE minimal encoding of the operand's value:
+    it is minimal, has the same value, and equals any other minimal string of that value -/
+theorem C01_bin2num_canonical (s : Bytes) :
+    Minimal (encodeBig (decodeBig s)) ∧ decodeBig (encodeBig (decodeBig s)) = decodeBig s ∧
+      ∀ t, Minimal t → decodeBig t = decodeBig s → t = encodeBig (decodeBig s) :=
+  ⟨C01_results_minimal _, C01_num_roundtrip _, fun t ht h =>
+    C01_minimal_unique t _ ht (C01_results_minimal _) (h.trans (C01_num_roundtrip _).symm)⟩
+
+/-- on operands of at most 4 bytes the `i32` decoder `decode_num` agrees with `decode_bigint` -/
+theorem C01_small_num_agree (s : Bytes) (h : s.length ≤ 4) : decodeNum s = .ok (decodeBig s) :=
+  CG.Proofs.ScriptNum.decodeNum_small s h
+
+/-- on its whole domain the `i32` encoder `encode_num` agrees with `encode_bigint` -/
+theorem C01_encodeNum_eq (v : Int) (h : v.natAbs ≤ 2 ^ 31 - 1) : encodeNum v = .ok (encodeBig v) :=
+  CG.Proofs.ScriptNum.encodeNum_eq v (by simpa using h)
+
+/-- `decode_bool` is "the numeric value is non-zero" (negative zero is false) -/
+theorem C01_decodeBool_iff (s : Bytes) : decodeBool s = true ↔ decodeBig s ≠ 0 :=
+  CG.Proofs.ScriptNum.decodeBool_iff s
+
+theorem C01_decodeBool_eq_truthy (s : Bytes) : decodeBool s = Spec.ScriptSem.truthy s := by
+  have h := C01_decodeBool_iff s
+  rw [C01_value_eq_spec] at h
+  unfold Spec.ScriptSem.truthy
+  cases hb : decodeBool s
+  · have : ¬ Spec.ScriptSem.value s ≠ 0 := fun hc => by rw [h.mpr hc] at hb; cases hb
+    simp at this; simp [this]
+  · have := h.mp hb; simp [this]
+
+/-! ## 2. Shifts -/
+
+/-- `lshift v n` (mask tables, carry into the previous byte) is the left shift of the big-endian
+    number denoted by `v`, length preserved — every `v`, every `n` -/
+theorem C01_lshift_spec (v : Bytes) (n : Nat) : Model.Shift.lshift v n = Spec.ScriptSem.shl v n :=
+  CG.Proofs.Shift.lshift_eq_shl v n
+
+theorem C01_rshift_spec (v : Bytes) (n : Nat) : Model.Shift.rshift v n = Spec.ScriptSem.shr v n :=
+  CG.Proofs.Shift.rshift_eq_shr v n
+
+/-- uniform numeric reading (no case split at the width) -/
+theorem C01_lshift_value (v : Bytes) (n : Nat) :
+    Spec.ScriptSem.beToNat (Model.Shift.lshift v n)
+      = (Spec.ScriptSem.beToNat v * 2 ^ n) % 2 ^ (8 * v.length) ∧
+    (Model.Shift.lshift v n).length = v.length :=
+  ⟨CG.Proofs.Shift.beToNat_lshift v n, Model.Shift.lshift_length v n⟩
+
+theorem C01_rshift_value (v : Bytes) (n : Nat) :
+    Spec.ScriptSem.beToNat (Model.Shift.rshift v n) = Spec.ScriptSem.beToNat v / 2 ^ n ∧
+    (Model.Shift.rshift v n).length = v.length :=
+  ⟨CG.Proofs.Shift.beToNat_rshift v n, Model.Shift.rshift_length v n⟩
+
+/-! ## 3. One step of the model = one step of the reference semantics -/
+
+/-- every operation except NUM2BIN, every state, checker, hash functions, rule set.  (`pushNum n`
+    is an operation only for the constants `-1 … 16`; `encode_num` rejects `|n| ≥ 2^31`, which the
+    reference does not model, hence the range side condition.) -/
+theorem C01_exec_eq_spec {σ : Type} (H : Hashes) (C : Checker σ) (pre : Bool) (script : Bytes)
+    (i : Nat) (op : Op) (st : St σ) (hop : op ≠ .num2bin)
+    (hpn : ∀ n, op = .pushNum n → n.natAbs ≤ 2 ^ 31 - 1) :
+    Model.Interp.exec H C pre script i op st = Spec.ScriptSem.exec H C pre script i op st :=
+  CG.Proofs.InterpSpec.exec_eq_spec H C pre script i op st hop
+    (fun n h => by simpa using hpn n h)
+
+/-- NUM2BIN as coded equals the reference for every requested size `m` when the operand is
+    minimally encoded and non-negative (this includes the empty operand) -/
+theorem C01_num2bin_eq_spec_partial (m : Int) (n : Bytes) (hmin : Minimal n) (hnn : 0 ≤ decodeBig n) :
+    Model.Interp.num2bin m n = Spec.ScriptSem.num2bin m n := by
+  apply CG.Proofs.InterpSpec.num2bin_eq_of_sign_clear m n _ (Or.inl hmin)
+  intro l hl
+  have hne : n ≠ [] := by intro hc; subst hc; simp at hl
+  obtain ⟨init, d, rfl⟩ := CG.Proofs.ScriptNum.list_snoc_of_ne_nil n hne
+  simp only [List.getLast?_append, List.getLast?_singleton, Option.some_or, Option.some.injEq] at hl
+  subst hl
+  have hv := CG.Proofs.InterpSpec.value_ne_zero_of_minimal _ hne hmin
+  rw [← C01_value_eq_spec] at hv
+  rw [CG.Proofs.ScriptNum.decodeBig_snoc] at hv hnn
+  by_cases h : d.toNat ≥ 128
+  · rw [if_pos h] at hv hnn; omega
+  · omega
+
+/-- also for non-minimal operands with a clear sign bit, as long as they fit the requested size -/
+theorem C01_num2bin_eq_spec_partial' (m : Int) (n : Bytes)
+    (hsign : ∀ l, n.getLast? = some l → l.toNat < 128) (hfit : (n.length : Int) ≤ m) :
+    Model.Interp.num2bin m n = Spec.ScriptSem.num2bin m n :=
+  CG.Proofs.InterpSpec.num2bin_eq_of_sign_clear m n hsign (Or.inr hfit)
+
+/-- the full statement — false of the current code (known finding `num2bin-sign`) -/
+def C01_num2bin_eq_spec_full : Prop :=
+  ∀ (m : Int) (n : Bytes), Model.Interp.num2bin m n = Spec.ScriptSem.num2bin m n
+
+theorem C01_num2bin_eq_spec_full_false : ¬ C01_num2bin_eq_spec_full := by
+  intro h
+  have h1 := h 2 [0x81]
+  rw [C01_num2bin_defect.1, C01_num2bin_defect.2] at h1
+  exact absurd h1 (by decide)
+
+/-- per opcode BYTE: one model step equals one reference step, provided that — if the byte is
+    OP_NUM2BIN — the operand under the size is minimally encoded and non-negative -/
+theorem C01_step_eq_spec_partial {σ : Type} (H : Hashes) (C : Checker σ) (pre : Bool)
+    (script : Bytes) (i : Nat) (b : UInt8) (st : St σ)
+    (h : b = 128 → ∀ mb n r, st.stack = mb :: n :: r → Minimal n ∧ 0 ≤ decodeBig n) :
+    Model.Interp.exec H C pre script i (decodeOp b) st
+      = Spec.ScriptSem.exec H C pre script i (decodeOp b) st := by
+  by_cases hb : decodeOp b = .num2bin
+  · rw [hb]
+    apply CG.Proofs.InterpSpec.exec_num2bin_eq
+    intro mb n r hs
+    obtain ⟨h1, h2⟩ := h (CG.Proofs.InterpSpec.decodeOp_num2bin b hb) mb n r hs
+    exact C01_num2bin_eq_spec_partial _ n h1 h2
+  · exact CG.Proofs.InterpSpec.exec_eq_spec H C pre script i _ st hb
+      (fun n hn => Nat.le_trans (CG.Proofs.InterpSpec.decodeOp_pushNum b n hn) (by decide))
+
+/-! ## 4. Whole runs -/
+
+/-- the interpreter loop over the model's opcode semantics equals the loop over the reference
+    semantics with the NUM2BIN arm taken from the library (`Proofs.InterpSpec.specLib`): every script,
+    fuel, position, state, break offset -/
+theorem C01_run_eq_spec_modulo_num2bin {σ : Type} (H : Hashes) (C : Checker σ) (pre : Bool)
+    (script : Bytes) (breakAt : Option Nat) (fuel i : Nat) (st : St σ) :
+    Model.Interp.run H C pre script breakAt fuel i st
+      = runWith (specLib H C pre script) script breakAt fuel i st :=
+  CG.Proofs.InterpSpec.runWith_congr _ _ script breakAt
+    (fun i st => CG.Proofs.InterpSpec.exec_eq_specLib H C pre script i _ st) fuel i st
+
+/-- hence `core_eval` is the reference evaluation with the library's NUM2BIN -/
+theorem C01_coreEval_eq_spec_modulo_num2bin {σ : Type} (H : Hashes) (C : Checker σ) (c0 : σ)
+    (script : Bytes) (flags : Nat) (startAt breakAt : Option Nat) (stack alt : Option Stack) :
+    coreEval H C c0 script flags startAt breakAt stack alt =
+      (let st0 : St σ := { stack := stack.getD [], alt := alt.getD [], branch := [], checkIndex := 0, chk := c0 }
+       match runWith (specLib H C (flags % 2 = 1) script) script breakAt (script.length + 1)
+          (startAt.getD 0) st0 with
+       | .ok (st, i) => .ok { stack := st.stack, alt := st.alt, pos := breakAt.map (fun _ => i), chk := st.chk }
+       | .err e => .err e
+       | .panic p => .panic p) := by
+  unfold coreEval
+  simp only [C01_run_eq_spec_modulo_num2bin]
+  rfl
+
+/-- scripts that contain no byte `0x80` anywhere (so certainly never execute OP_NUM2BIN):
+    the model's run IS the reference run -/
+theorem C01_run_eq_spec_no_num2bin {σ : Type} (H : Hashes) (C : Checker σ) (pre : Bool)
+    (script : Bytes) (hno : ∀ b ∈ script, b ≠ 128) (breakAt : Option Nat) (fuel i : Nat) (st : St σ) :
+    Model.Interp.run H C pre script breakAt fuel i st
+      = Spec.ScriptSem.run H C pre script breakAt fuel i st := by
+  apply CG.Proofs.InterpSpec.runWith_congr
+  intro i st
+  apply C01_step_eq_spec_partial
+  intro hb
+  rcases CG.Proofs.InterpSpec.getD_mem_or_zero script i with hm | h0
+  · exact absurd hb (hno _ hm)
+  · rw [h0] at hb; exact absurd hb (by decide)
+
+theorem C01_coreEval_eq_spec_no_num2bin {σ : Type} (H : Hashes) (C : Checker σ) (c0 : σ)
+    (script : Bytes) (hno : ∀ b ∈ script, b ≠ 128) (flags : Nat) (startAt breakAt : Option Nat)
+    (stack alt : Option Stack) :
+    coreEval H C c0 script flags startAt breakAt stack alt
+      = Spec.ScriptSem.coreEval H C c0 script flags startAt breakAt stack alt := by
+  unfold coreEval Spec.ScriptSem.coreEval
+  simp only [C01_run_eq_spec_no_num2bin H C _ script hno]
+  rfl
+
+/-- and the verdicts agree -/
+theorem C01_eval_eq_spec_no_num2bin {σ : Type} (H : Hashes) (C : Checker σ) (c0 : σ)
+    (script : Bytes) (hno : ∀ b ∈ script, b ≠ 128) (flags : Nat) :
+    Model.Interp.eval H C c0 script flags = Spec.ScriptSem.eval H C c0 script flags := by
+  unfold Model.Interp.eval Spec.ScriptSem.eval
+  simp only [C01_coreEval_eq_spec_no_num2bin H C c0 script hno, C01_decodeBool_eq_truthy, scriptErr]
+  rfl
+
+/-- the full statement `C01_eval_eq_spec` of DESIGN.md — false of the current code, because of
+    NUM2BIN only (see `C01_coreEval_eq_spec_modulo_num2bin`) -/
+def C01_eval_eq_spec_full : Prop :=
+  ∀ (σ : Type) (H : Hashes) (C : Checker σ) (c0 : σ) (script : Bytes) (flags : Nat),
+    coreEval H C c0 script flags none none none none
+      = Spec.ScriptSem.coreEval H C c0 script flags none none none none
+
+/-- witness: `OP_1NEGATE OP_2 OP_NUM2BIN` leaves `81 00` where the reference leaves `01 80` -/
+theorem C01_eval_eq_spec_full_false : ¬ C01_eval_eq_spec_full := by
+  intro h
+  have h0 := congrArg (Outcome.map (·.stack))
+    (h Unit ⟨id, id, id, id, id⟩ ⟨fun c _ _ _ => (.ok true, c), fun _ _ => .ok true, fun _ _ => .ok true⟩ ()
+      [0x4f, 0x52, 0x80] 0)
+  have h1 : (coreEval ⟨id, id, id, id, id⟩
+      (⟨fun c _ _ _ => (.ok true, c), fun _ _ => .ok true, fun _ _ => .ok true⟩ : Checker Unit) ()
+      [0x4f, 0x52, 0x80] 0 none none none none).map (·.stack) = .ok [[0x81, 0x00]] := by decide +kernel
+  have h2 : (Spec.ScriptSem.coreEval ⟨id, id, id, id, id⟩
+      (⟨fun c _ _ _ => (.ok true, c), fun _ _ => .ok true, fun _ _ => .ok true⟩ : Checker Unit) ()
+      [0x4f, 0x52, 0x80] 0 none none none none).map (·.stack) = .ok [[0x01, 0x80]] := by decide +kernel
+  rw [h1, h2] at h0
+  exact absurd h0 (by decide)
+
+/-! ## 5. Structured control flow (stretch)
+
+`Prog` is the shape of a well-nested script (plain instructions, `IF|NOTIF thn [ELSE els] ENDIF`);
+`Parses script a T b` says the bytes `script[a..b)` are laid out as `T`; `big` is the big-step
+semantics of the tree, which at a conditional pops the condition and runs exactly one arm
+(`Proofs/InterpFlow.lean`). -/
+
+/-- for every per-opcode semantics whose four flow opcodes act on the flag stack as in `core_eval`
+    and whose other opcodes leave the flag stack alone: the flag machine (flag stack +
+    `skip_branch`, canonical fuel) started at a block whose innermost flag is not `false` equals the
+    big-step semantics of the block followed by the machine from the end of the block; a block that
+    completes restores the flag stack -/
+theorem C01_structured_flow {σ : Type} (ex : Nat → Op → St σ → Outcome (Bool × St σ))
+    (script : Bytes) (hs : FlowSem ex) {a b : Nat} {T : Prog} (h : Parses script a T b)
+    (st : St σ) (hnf : ∀ bs, st.branch ≠ false :: bs) :
+    runWith ex script none (script.length + 1) a st = cont ex script b (big ex script T a st) ∧
+      ∀ st' q, big ex script T a st = .ok (false, st', q) → st'.branch = st.branch :=
+  CG.Proofs.InterpFlow.flow_main ex script hs h st hnf
+
+/-- the model's and the reference's opcode semantics satisfy the two requirements -/
+theorem C01_flowSem_model {σ : Type} (H : Hashes) (C : Checker σ) (pre : Bool) (script : Bytes) :
+    FlowSem (Model.Interp.exec H C pre script) := CG.Proofs.InterpFlow.model_flowSem H C pre script
+
+theorem C01_flowSem_spec {σ : Type} (H : Hashes) (C : Checker σ) (pre : Bool) (script : Bytes) :
+    FlowSem (Spec.ScriptSem.exec H C pre script) := CG.Proofs.InterpFlow.spec_flowSem H C pre script
+
+/-- whole runs of the model: a script whose tail from `a` parses as `T`, empty flag stack, the fuel
+    `core_eval` uses — the loop returns what the big-step semantics of `T` returns (an OP_RETURN
+    inside a conditional is the "ENDIF missing" error of `finish`) -/
+theorem C01_structured_flow_model {σ : Type} (H : Hashes) (C : Checker σ) (pre : Bool)
+    (script : Bytes) {a : Nat} {T : Prog} (h : Parses script a T script.length)
+    (st : St σ) (hbr : st.branch = []) :
+    Model.Interp.run H C pre script none (script.length + 1) a st =
+      match big (Model.Interp.exec H C pre script) script T a st with
+      | .ok (false, st', _) => .ok (st', script.length)
+      | .ok (true, st', p) => finish st' p
+      | .err e => .err e
+      | .panic p => .panic p :=
+  CG.Proofs.InterpFlow.run_structured _ script (C01_flowSem_model H C pre script) h st hbr
+
+theorem C01_structured_flow_spec {σ : Type} (H : Hashes) (C : Checker σ) (pre : Bool)
+    (script : Bytes) {a : Nat} {T : Prog} (h : Parses script a T script.length)
+    (st : St σ) (hbr : st.branch = []) :
+    Spec.ScriptSem.run H C pre script none (script.length + 1) a st =
+      match big (Spec.ScriptSem.exec H C pre script) script T a st with
+      | .ok (false, st', _) => .ok (st', script.length)
+      | .ok (true, st', p) => finish st' p
+      | .err e => .err e
+      | .panic p => .panic p :=
+  CG.Proofs.InterpFlow.run_structured _ script (C01_flowSem_spec H C pre script) h st hbr
+
+/-- exactly one arm: with the condition `c` popped, the big-step semantics of a conditional is the
+    semantics of `thn` (if `c ≠ neg`) or of `els` (otherwise) followed by the rest — the other arm
+    does not occur -/
+theorem C01_structured_one_arm {σ : Type} (ex : Nat → Op → St σ → Outcome (Bool × St σ))
+    (script : Bytes) (neg hasElse : Bool) (thn els rest : Prog) (a : Nat) (st : St σ) (c : Bool)
+    (r : Stack) (hp : popBool st.stack = .ok (c, r)) :
+    big ex script (.cond neg hasElse thn els rest) a st =
+      (let m := endPos script thn (a + 1)
+       let e := if hasElse then endPos script els (m + 1) else m
+       let st1 : St σ := { st with stack := r, branch := true :: st.branch }
+       let k := fun st2 : St σ => big ex script rest (e + 1) { st2 with branch := st.branch }
+       if c != neg then andThen (big ex script thn (a + 1) st1) k
+       else andThen (big ex script els (m + 1) st1) k) := by
+  simp only [big, hp]
+
+/-! ## hypotheses are satisfiable -/
+
+/-- `OP_1 OP_IF OP_2 OP_ELSE OP_3 OP_ENDIF OP_NOTIF 01 63 OP_ENDIF` parses (the pushed byte `63` is
+    data, not an IF) -/
+example : Parses [0x51, 0x63, 0x52, 0x67, 0x53, 0x68, 0x64, 0x01, 0x63, 0x68] 0
+    (.op (.cond false true (.op .done) (.op .done) (.cond true false (.op .done) .done .done))) 10 := by
+  refine .op 0 10 _ (by decide) (by decide) ?_
+  refine .condElse 1 3 5 10 false _ _ _ (by decide) (by decide) ?_ (by decide) (by decide) ?_
+    (by decide) (by decide) ?_
+  · exact .op 2 3 _ (by decide) (by decide) (.done 3 (by decide))
+  · exact .op 4 5 _ (by decide) (by decide) (.done 5 (by decide))
+  · refine .condNoElse 6 9 10 true _ _ (by decide) (by decide) ?_ (by decide) (by decide)
+      (.done 10 (by decide))
+    exact .op 7 9 _ (by decide) (by decide) (.done 9 (by decide))
+
+/-- … and its big-step evaluation takes the THEN arm of the first conditional (pushing 2) and
+    neither arm of the second (NOTIF on a true value, no ELSE): empty stack at position 10 -/
+example :
+    (big (Model.Interp.exec ⟨id, id, id, id, id⟩
+        (⟨fun c _ _ _ => (.ok true, c), fun _ _ => .ok true, fun _ _ => .ok true⟩ : Checker Unit) false
+        [0x51, 0x63, 0x52, 0x67, 0x53, 0x68, 0x64, 0x01, 0x63, 0x68])
+      [0x51, 0x63, 0x52, 0x67, 0x53, 0x68, 0x64, 0x01, 0x63, 0x68]
+      (.op (.cond false true (.op .done) (.op .done) (.cond true false (.op .done) .done .done))) 0
+      { stack := [], alt := [], branch := [], checkIndex := 0, chk := () }).map
+        (fun r => (r.1, r.2.1.stack, r.2.1.branch, r.2.2))
+      = .ok (false, [], [], 10) := by decide +kernel
+
+
+example : Minimal [0xff, 0x80] ∧ ¬ Minimal [0x01, 0x00] ∧ ¬ Minimal [0x80] := by
+  refine ⟨?_, ?_, ?_⟩ <;> simp [Minimal, clearSign] <;> decide
+example : ([0x01, 0x02, 0x03] : Bytes).length ≤ 4 := by decide
+example : (2147483647 : Int).natAbs ≤ 2 ^ 31 - 1 := by decide
+example : Minimal [0x05] ∧ 0 ≤ decodeBig [0x05] := by
+  constructor
+  · simp [Minimal, clearSign]
+  · decide
+example : Model.Interp.num2bin 4 [0x05] = .ok [0x05, 0, 0, 0] := by decide
+example : ∀ b ∈ ([0x51, 0x52, 0x93, 0x53, 0x87] : Bytes), b ≠ 128 := by decide
+example : Model.Shift.lshift [0x01, 0x80] 1 = [0x03, 0x00] := by decide
+example : Model.Shift.rshift [0x01, 0x80] 9 = [0x00, 0x00] := by decide
 
 end CG.Props.C01
